@@ -455,6 +455,17 @@ func (x *Exec) writePath(cur Val, path []pathElem, v Val) Val {
 					x.errorf("storing map of unexpected sort into term struct")
 					return c
 				}
+			} else if gs, isGS := nv.(*GoSlice); isGS && want == SCoins && len(gs.Elems) <= 1 {
+				// sdk.Coins{} / sdk.Coins{c} stored into a coins-valued field: the array view of the one listed coin
+				nt = ZeroOf(SCoins)
+				if len(gs.Elems) == 1 {
+					ct, isT := gs.Elems[0].(*Term)
+					if !isT || ct.Sort != SCoin {
+						x.errorf("storing non-term %T into term struct", nv)
+						return c
+					}
+					nt = Store(nt, SelField(ct, 0), SelField(ct, 1))
+				}
 			} else if gs, isGS := nv.(*GoSlice); isGS && want != nil && isSliceSort(want) {
 				// a Go slice value with term elements stored into a struct term: build the slice term
 				es := want.Fields[1].Sort.Elem
